@@ -70,6 +70,15 @@ def call_temporal(T, P, kind, arg, api):
             tr.createAnalyticalFeature("af", 3.0)
             if kind == "step":
                 delta = arg // 2 if arg % 2 == 0 and api == "int" else arg / 2.0
+                # a step is a NUMBER: python int / float, or what numpy hands back (np.median(np.diff(t)) is an np.float64, a
+                # count an np.int64) - by turns
+                h_ = (arg + len(T) + sum(T)) % 3
+                if h_ == 1:
+                    import numpy as np
+                    delta = np.float64(delta)
+                elif h_ == 2 and isinstance(delta, int):
+                    import numpy as np
+                    delta = np.int64(delta)
                 tr.resample(delta=delta, mode=2)
                 res = tr
             else:
@@ -122,7 +131,11 @@ def call_spatial(T, P, ds2, scale=1, div=None):
             if div:
                 tr.resample(delta=ds2 / (2.0 * div), mode=1)
             elif scale == 1:
-                tr.resample(delta=(ds2 // 2 if ds2 % 2 == 0 else ds2 / 2.0), mode=1)
+                ds_ = ds2 // 2 if ds2 % 2 == 0 else ds2 / 2.0
+                if (ds2 + len(T)) % 3 == 1:
+                    import numpy as np
+                    ds_ = np.float64(ds_)
+                tr.resample(delta=ds_, mode=1)
             else:
                 tr.resample(delta=ds2 / 2.0 * scale, mode=1)
         e["out"], e["lat"] = rows(tr, maxden, div if div else (1 if scale == 1 else 1.0 / scale))
